@@ -13,6 +13,7 @@ import TonVerif.Drv.Proof
 import TonVerif.Drv.Message
 import TonVerif.Drv.Tlb
 import TonVerif.Drv.Sig
+import TonVerif.Drv.Heap
 
 open TonVerif TonVerif.Drv
 
@@ -26,6 +27,7 @@ def handlers : List (String → List String → Option String) := [
   Tlb.handle?
   Sig.handle?,
   Adnl.handle?
+  Heap.handle?
 ]
 
 def handle (op : String) (args : List String) : String :=
